@@ -72,60 +72,91 @@ func main() {
 	}
 	gap, egap := rules.MinBlockGap, rules.MinEmptyBlockGap
 	bound := int64(chain.FutureBound / time.Millisecond)
-	for _, p := range parents {
-		root, _ := p.view.GetMerkleRoot(rig.Ctx)
-		tsGrid := []int64{p.ts - 1000, p.ts - 1, p.ts, p.ts + 1, p.ts + gap - 1, p.ts + gap, p.ts + egap - 1, p.ts + egap, p.ts + egap + 1, now, now + bound, now + bound + 1,
-			gap, egap, 1_000_000} // small absolute timestamps (relevant for the genesis parent whose state says 0)
-		for _, h := range []uint64{p.height, p.height + 1, p.height + 2, 0, p.height + 1<<40} {
-			for _, ts := range tsGrid {
-				if ts <= 0 {
-					continue
+	// pass 1: a fresh Processor per child (the verdict as a function of parent and child alone);
+	// passes 2-3: ONE long-lived Processor verifies the whole grid, forwards and backwards, so every
+	// child is preceded by verified siblings, cousins and blocks of other heights: the verdict must not
+	// depend on what the processor verified before
+	first := map[string]bool{}
+	shared := proc()
+	shared2 := proc()
+	for _, pass := range []struct {
+		name, suffix string
+		mk           func() *chain.Processor
+		reverse      bool
+	}{{"fresh processor", "", proc, false}, {"long-lived processor", ":after-other-blocks", func() *chain.Processor { return shared }, false}, {"long-lived processor, reverse order", ":after-other-blocks", func() *chain.Processor { return shared2 }, true}} {
+		mkProc := pass.mk
+		ps := append([]parent{}, parents...)
+		if pass.reverse {
+			ps[0], ps[2] = ps[2], ps[0]
+		}
+		for _, p := range ps {
+			root, _ := p.view.GetMerkleRoot(rig.Ctx)
+			tsGrid := []int64{p.ts - 1000, p.ts - 1, p.ts, p.ts + 1, p.ts + gap - 1, p.ts + gap, p.ts + egap - 1, p.ts + egap, p.ts + egap + 1, now, now + bound, now + bound + 1,
+				gap, egap, 1_000_000, // small absolute timestamps (relevant for the genesis parent whose state says 0)
+				0, -1, -1000, -(1 << 62)} // and non-positive ones (wrap to huge values if compared unsigned)
+			if pass.reverse {
+				for i, j := 0, len(tsGrid)-1; i < j; i, j = i+1, j-1 {
+					tsGrid[i], tsGrid[j] = tsGrid[j], tsGrid[i]
 				}
-				for _, ntx := range []int{0, 1} {
-					for _, rightRoot := range []bool{true, false} {
-						evals++
-						var txs []*chain.Transaction
-						if ntx == 1 {
-							txs = []*chain.Transaction{env.MakeTx(0, []chain.Action{&rig.OpAction{Compute: 1, Nonce: uint64(evals), Start: -1, End: -1}}, ts, rig.TxOpts{})}
-						}
-						rt := root
-						if !rightRoot {
-							rt = ids.ID{0xde, 0xad}
-						}
-						sb, err := chain.NewStatelessBlock(p.blk.GetID(), ts, h, txs, rt, nil)
-						if err != nil {
-							evid.Infra("%v", err)
-						}
-						_, verr := proc().Execute(rig.Ctx, p.view, chain.NewExecutionBlock(sb), true)
-						need := gap
-						if ntx == 0 && egap > gap {
-							need = egap
-						}
-						want := h == p.height+1 && ts >= p.ts+need && ts <= now+bound && rightRoot
-						rep := map[string]any{"parent": p.name, "parentHeight": p.height, "parentTimestamp": p.ts, "height": h, "timestamp": ts, "txs": ntx, "rootMatches": rightRoot, "now": now}
-						if (verr == nil) != want {
-							key := "C11:rejects-valid-child"
-							if !want {
-								switch {
-								case h != p.height+1:
-									key = "C11:accepts-wrong-height"
-								case !rightRoot:
-									key = "C11:accepts-wrong-root"
-								case ts > now+bound:
-									key = "C11:accepts-future-block"
-								case p.height == 0:
-									key = "C11:genesis-child:ts<genesis-header-ts+gap"
-								default:
-									key = "C11:accepts-timestamp-below-parent+gap"
-								}
+			}
+			for _, h := range []uint64{p.height, p.height + 1, p.height + 2, 0, p.height + 1<<40} {
+				for _, ts := range tsGrid {
+					for _, ntx := range []int{0, 1} {
+						for _, rightRoot := range []bool{true, false} {
+							evals++
+							var txs []*chain.Transaction
+							if ntx == 1 {
+								txs = []*chain.Transaction{env.MakeTx(0, []chain.Action{&rig.OpAction{Compute: 1, Nonce: uint64(evals), Start: -1, End: -1}}, ts, rig.TxOpts{})}
 							}
-							r.Violation(key, fmt.Sprintf("child of %s (parent header ts %d, height %d): height %d ts %d txs %d rootMatches=%v -> err=%v, expected valid=%v", p.name, p.ts, p.height, h, ts, ntx, rightRoot, verr, want), rep)
-						}
-						if want {
-							nontriv++
-						}
-						if evals%97 == 0 {
-							r.Sample(rep)
+							rt := root
+							if !rightRoot {
+								rt = ids.ID{0xde, 0xad}
+							}
+							sb, err := chain.NewStatelessBlock(p.blk.GetID(), ts, h, txs, rt, nil)
+							if err != nil {
+								evid.Infra("%v", err)
+							}
+							_, verr := mkProc().Execute(rig.Ctx, p.view, chain.NewExecutionBlock(sb), true)
+							need := gap
+							if ntx == 0 && egap > gap {
+								need = egap
+							}
+							want := h == p.height+1 && ts >= p.ts+need && ts <= now+bound && rightRoot
+							rep := map[string]any{"parent": p.name, "parentHeight": p.height, "parentTimestamp": p.ts, "height": h, "timestamp": ts, "txs": ntx, "rootMatches": rightRoot, "now": now}
+							ck := fmt.Sprint(p.name, h, ts, ntx, rightRoot)
+							if pass.suffix == "" {
+								first[ck] = verr == nil
+							} else {
+								if first[ck] != (verr == nil) {
+									r.Violation("C11:verdict-depends-on-previously-verified-blocks", fmt.Sprintf("[%s] child of %s: height %d ts %d txs %d rootMatches=%v -> err=%v, but a fresh processor says valid=%v (expected valid=%v)", pass.name, p.name, h, ts, ntx, rightRoot, verr, first[ck], want), rep)
+								}
+								continue
+							}
+							if (verr == nil) != want {
+								key := "C11:rejects-valid-child"
+								if !want {
+									switch {
+									case h != p.height+1:
+										key = "C11:accepts-wrong-height"
+									case !rightRoot:
+										key = "C11:accepts-wrong-root"
+									case ts > now+bound:
+										key = "C11:accepts-future-block"
+									case p.height == 0 && ts >= need:
+										// valid against the timestamp 0 the genesis STATE holds, below the genesis header's
+										key = "C11:genesis-child:ts<genesis-header-ts+gap"
+									default:
+										key = "C11:accepts-timestamp-below-parent+gap"
+									}
+								}
+								r.Violation(key, fmt.Sprintf("child of %s (parent header ts %d, height %d): height %d ts %d txs %d rootMatches=%v -> err=%v, expected valid=%v", p.name, p.ts, p.height, h, ts, ntx, rightRoot, verr, want), rep)
+							}
+							if want {
+								nontriv++
+							}
+							if evals%97 == 0 {
+								r.Sample(rep)
+							}
 						}
 					}
 				}
@@ -134,7 +165,7 @@ func main() {
 	}
 	r.Cov["evaluations"] = evals
 	r.Cov["distinct_nontrivial"] = nontriv
-	r.Cov["rule"] = "3 parents (real NewGenesisCommit, executed empty height-1 block, executed height-2 block with a transaction) x height {h, h+1, h+2, 0, huge} x timestamp {parent-1s, parent+-1, parent+gap(-1), parent+emptyGap(+-1), now, now+bound(+1), small absolute values} x txs {0,1} x root {right, wrong}; parent timestamp = the parent block's header timestamp; non-trivial = valid children"
+	r.Cov["rule"] = "3 parents (real NewGenesisCommit, executed empty height-1 block, executed height-2 block with a transaction) x height {h, h+1, h+2, 0, huge} x timestamp {parent-1s, parent+-1, parent+gap(-1), parent+emptyGap(+-1), now, now+bound(+1), small absolute values} x txs {0,1} x root {right, wrong}; parent timestamp = the parent block's header timestamp; non-trivial = valid children; timestamps include 0 and negative values; the grid is verified by a fresh Processor per child and twice by one long-lived Processor (forwards, backwards)"
 	r.Assumptions = []string{"default rule gaps (100 ms / 750 ms)", "frozen local clock"}
 	r.Finish()
 }
